@@ -334,8 +334,8 @@ def _exit_class(e, labs, vals):
 
 def _walk(e):
     yield e
-    if isinstance(e, tuple):
-        for x in e[1:]:
+    if isinstance(e, tuple) and e:
+        for x in (e if isinstance(e[0], tuple) else e[1:]):
             if isinstance(x, tuple):
                 for y in _walk(x):
                     yield y
